@@ -214,9 +214,13 @@ def make_recipe(rng, tier, which):
         hi = 22
     n = int(rng.integers(max(nmin, 6), max(nmin, 6) + hi))
     nb = int(rng.integers(max(nmin, 4), max(nmin, 4) + 15))
+    # a share of the cases holds large integers (counters, epoch seconds ~1e9): exactly representable
+    # in float64 and in int64 alike, but their squares summed over a few rows leave the int64 range
+    big = 1_000_000_000 if rng.random() < 0.15 else 0
     return {"kind": "detector", "det": spec, "overlap": int(rng.integers(0, 6)) if rng.random() < 0.6 else 0,
-            "A": integer_data(rng, n, p), "B": integer_data(rng, nb, p),
-            "C": integer_data(rng, int(rng.integers(max(nmin, 4), max(nmin, 4) + 20)), p)}
+            "big": big,
+            "A": integer_data(rng, n, p) + big, "B": integer_data(rng, nb, p) + big,
+            "C": integer_data(rng, int(rng.integers(max(nmin, 4), max(nmin, 4) + 20)), p) + big}
 
 
 def detector_case(ctx, r):
@@ -225,7 +229,9 @@ def detector_case(ctx, r):
     spec = r["det"]
     name = spec["cls"]
     ctx.stat(f"det[{name}]")
-    label = f"{short(spec)} A[{n}x{p}]"
+    if r.get("big"):
+        ctx.stat("cases[large integers]")
+    label = f"{short(spec)} A[{n}x{p}]" + (" (values ~1e9)" if r.get("big") else "")
     sub = "representation"
     I.drain()
     reps = list(REPS) + (REPS_P1 if p == 1 else [])
